@@ -3,7 +3,9 @@ package qlang
 import (
 	"fmt"
 	"os"
+	"runtime"
 	"testing"
+	"time"
 
 	kit "github.com/sourcegraph/zoekt/internal/verifkit"
 	"github.com/sourcegraph/zoekt/query"
@@ -15,6 +17,21 @@ func TestQL_Debug(t *testing.T) {
 	s := os.Getenv("QL_DEBUG")
 	if s == "" {
 		t.Skip("QL_DEBUG not set")
+	}
+	if os.Getenv("QL_PARSE_ONLY") != "" {
+		var m0, m1 runtime.MemStats
+		runtime.ReadMemStats(&m0)
+		t0 := time.Now()
+		zq, zerr := query.Parse(s)
+		d := time.Since(t0)
+		runtime.ReadMemStats(&m1)
+		fmt.Printf("mallocs=%d ", m1.Mallocs-m0.Mallocs)
+		str := ""
+		if zq != nil {
+			str = zq.String()
+		}
+		fmt.Printf("query.Parse took %v err=%v len(String)=%d\n", d, zerr, len(str))
+		return
 	}
 	g, derr := docParse(s)
 	fmt.Printf("string: %q\n", s)
